@@ -58,7 +58,7 @@ func genReads(r *core.Rand, tier string) string {
 		return fmt.Sprintf("N%d", r.Intn(3))
 	}
 	var total int
-	switch c := r.Intn(20); {
+	switch c := r.Intn(22); {
 	case c < 3:
 		total = 0
 	case c < 10:
@@ -67,6 +67,8 @@ func genReads(r *core.Rand, tier string) string {
 		total = r.Range(100, 5000)
 	case c < 19:
 		total = r.Range(5000, 70000)
+	case c < 21:
+		total = r.Range(65537, 300000) // room for single reads above 64 KiB
 	default:
 		if tier == "thorough" {
 			total = r.Range(1<<20-3, 2<<20)
@@ -78,7 +80,10 @@ func genReads(r *core.Rand, tier string) string {
 		core.Count("body:never-read")
 		return "_"
 	}
-	chunk := []int{1, 2, 7, 512, 4096, 32768, 65536, r.Range(1, 9000)}[r.Intn(8)]
+	// what one Read returns: 1 byte … 1 MiB (io.Copy's 32 KiB is one consumer among many: io.ReadAll,
+	// bufio with a large buffer, a caller's own buffer)
+	chunk := []int{1, 2, 7, 512, 4096, 32768, 65536, r.Range(1, 9000), 65537, 65536 + r.Range(1, 5000), 131072, 1 << 20,
+		r.Range(65537, 1<<20)}[r.Intn(13)]
 	if total/chunk > 400 {
 		chunk = total/400 + 1
 	}
@@ -95,6 +100,9 @@ func genReads(r *core.Rand, tier string) string {
 		}
 		if n > left {
 			n = left
+		}
+		if n > 65536 {
+			core.Count("body:read>64KiB")
 		}
 		extra := 0
 		if r.Chance(1, 3) {
@@ -215,11 +223,65 @@ func genMsg(r *core.Rand, tier string, kind byte, id string) string {
 	}
 	cl := []string{"-1", "0", "0", "1", "5", "1048576", "9223372036854775807"}[r.Intn(7)]
 	te := r.Pick("n", "n", "n", "e", core.HexS("chunked"), core.HexS("gzip")+","+core.HexS("chunked"))
-	return strings.Join([]string{string(kind), core.HexS(id), api, pseudo, host, cl, te, genHdrs(r), genReads(r, tier)}, "/")
+	reads := ""
+	if gatedReads {
+		reads = genReadsGated(r)
+	} else {
+		reads = genReads(r, tier)
+	}
+	return strings.Join([]string{string(kind), core.HexS(id), api, pseudo, host, cl, te, genHdrs(r), reads}, "/")
 }
+
+// genReadsGated: few reads (every frame of a controlled schedule costs a scheduling round), sizes on
+// both sides of every power of two a buffer strategy might switch at.
+func genReadsGated(r *core.Rand) string {
+	if r.Chance(1, 12) {
+		return fmt.Sprintf("N%d", r.Intn(3))
+	}
+	n := r.Intn(7)
+	var steps []string
+	for k := 0; k < n; k++ {
+		sz := []int{0, 1, 9, 100, 4096, r.Range(1, 5000), r.Range(1, 300), r.Range(1, 40000)}[r.Intn(8)]
+		if r.Chance(1, 4) { // around and above 64 KiB
+			sz = []int{32768, 65535, 65536, 65537, 65537, 65536 + r.Range(1, 900), 65536 + r.Range(1, 9000), 131072}[r.Intn(8)]
+		}
+		if r.Chance(1, 80) {
+			sz = []int{1 << 20, r.Range(131072, 1<<20), 1<<20 + 1}[r.Intn(3)]
+		}
+		if sz > 65536 {
+			core.Count("body:read>64KiB")
+		}
+		e := "n"
+		if k == n-1 && r.Chance(1, 3) {
+			e = r.Pick("e", "e", "x")
+		}
+		steps = append(steps, fmt.Sprintf("%s:%s:%d", dataToken(r, sz), e, r.Pick2(0, r.Intn(64))))
+	}
+	if r.Chance(2, 3) {
+		steps = append(steps, "-:e:"+strconv.Itoa(r.Intn(3)))
+	}
+	if len(steps) == 0 {
+		return "_"
+	}
+	return strings.Join(steps, ";")
+}
+
+// genGatedCase: 2..6 messages under a controlled schedule (`rung`).
+func genGatedCase(r *core.Rand) []string {
+	gatedReads = true
+	defer func() { gatedReads = false }()
+	ops := genLogCase(r, "gated")
+	ops[len(ops)-1] = fmt.Sprintf("rung %d", r.U64()>>1)
+	return ops
+}
+
+var gatedReads bool
 
 func genLogCase(r *core.Rand, tier string) []string {
 	n := []int{1, 2, 2, 3, 4, 5, 6, 8}[r.Intn(8)]
+	if tier == "gated" {
+		n = r.Range(2, 6)
+	}
 	if tier == "thorough" && r.Chance(1, 10) {
 		n = r.Range(9, 16)
 	}
@@ -296,6 +358,35 @@ func encData(mt byte, id string, idx uint32, term byte, d []byte) []byte {
 	return append(b, d...)
 }
 
+// bigEvery: one generated reader input in bigEvery carries a frame whose lengths are around / above
+// 64 KiB (a reader that decodes from a fixed-size buffer is wrong exactly there). Set per tier in Gen.
+var bigEvery = 30
+
+func genBigFrame(r *core.Rand) []byte {
+	id := string(r.Bytes(8))
+	mt := byte(r.Range(1, 2))
+	big := []int{65535, 65536, 65537, 65536 + r.Range(2, 5000), 100000, r.Range(65537, 200000)}[r.Intn(6)]
+	fill := func(n int) []byte {
+		b := make([]byte, n)
+		st := r.Intn(251)
+		for i := range b {
+			b[i] = byte((st + i) % 251)
+		}
+		return b
+	}
+	core.Count("gen:big-frame")
+	switch r.Intn(4) {
+	case 0: // long value
+		return encHeader(mt, id, r.Bytes(r.Intn(20)), fill(big))
+	case 1: // long name
+		return encHeader(mt, id, fill(big), r.Bytes(r.Intn(20)))
+	case 2: // each below, the sum above
+		return encHeader(mt, id, fill(big/2), fill(big-big/2))
+	default:
+		return encData(mt, id, uint32(r.Intn(3)), byte(r.Intn(2)), fill(big))
+	}
+}
+
 func genFrame(r *core.Rand) []byte {
 	id := string(r.Bytes(8))
 	mt := byte([]int{1, 2, 0, 3, 255}[r.Intn(5)])
@@ -317,7 +408,7 @@ func tame(b []byte, bound uint32) {
 	pos := 0
 	clamp := func(off int) uint64 {
 		v := binary.BigEndian.Uint32(b[off:])
-		if v > bound {
+		if v > bound && int64(v) > int64(len(b)-off) { // announced and really there: the allocation is no larger than the input
 			v = v & (bound - 1)
 			binary.BigEndian.PutUint32(b[off:], v)
 		}
@@ -364,10 +455,18 @@ func genReadInput(r *core.Rand) []byte {
 		core.Count("gen:random")
 	} else {
 		nf := r.Range(1, 5)
+		bigAt := -1
+		if r.Chance(1, bigEvery) {
+			bigAt = r.Intn(nf)
+		}
 		var starts []int
 		for i := 0; i < nf; i++ {
 			starts = append(starts, len(b))
-			b = append(b, genFrame(r)...)
+			if i == bigAt {
+				b = append(b, genBigFrame(r)...)
+			} else {
+				b = append(b, genFrame(r)...)
+			}
 		}
 		fs := starts[r.Intn(len(starts))] // a frame to aim at
 		switch class {
@@ -421,9 +520,16 @@ func genReadInput(r *core.Rand) []byte {
 }
 
 func (P) Gen(r *core.Rand, tier string, emit func([]string)) {
-	logs, reads := 400, 300
+	logs, reads, gated := 400, 300, 60
+	bigEvery = 30
 	if tier == "thorough" {
-		logs, reads = 4000, 15000
+		logs, reads, gated = 4000, 15000, 500
+		bigEvery = 300
+	}
+	// controlled schedules first: their scheduler reads goroutine dumps, which is cheapest while the
+	// process has not yet accumulated the writer goroutines of marbl.Modifier streams (no Close there)
+	for i := 0; i < gated; i++ {
+		emit(genGatedCase(r))
 	}
 	for i := 0; i < logs; i++ {
 		emit(genLogCase(r, tier))
